@@ -11,6 +11,8 @@ func init() {
 	vxRegister("H06cQ", H06cQ)
 	vxRegister("H06cT", H06cT)
 	vxRegister("H06d", H06d)
+	vxRegister("H06cpad", H06cpad)
+	vxRegister("H06h", H06h)
 	vxRegister("H06eQ", H06eQ)
 	vxRegister("H06eT", H06eT)
 }
@@ -101,6 +103,57 @@ func h06c(n int) {
 	// the continuation line may be indented by any horizontal whitespace
 	indent := []string{"", " ", "\t", "  \t", "\u00a0", "\f", "\r", "\v \u2003"}[vxChoice(8)]
 	vxSameDoc("hyphen-split", vxTokenizeBytes(x), vxTokenizeBytes(vxInsert(x, p, "-\n"+indent)), false)
+	vxCover("end")
+}
+
+// H06cpad: the hyphen split sits at the read-buffer boundary (the line break, the indentation of the
+// continuation line or the second half of the word is the first thing of the next buffer pass).
+func H06cpad() {
+	pad := 1010 + vxChoice(14)
+	indent := []string{"", " ", "    "}[vxChoice(3)]
+	w := vxBytes(1)
+	isL := ((w[0] | 0x20) - 'a') < 26
+	vxAssume(isL)
+	word := "soft" + string(w) + "ware"
+	mk := func(split bool) []byte {
+		b := make([]byte, 0, pad+64)
+		for i := 0; i < pad; i++ {
+			b = append(b, ' ')
+		}
+		if split {
+			b = append(b, word[:4]...)
+			b = append(b, "-\n"+indent...)
+			b = append(b, word[4:]...)
+		} else {
+			b = append(b, word...)
+		}
+		return append(b, " and more text to fill the buffer\nzz yy\n"...)
+	}
+	vxSameDoc("hyphen-split-at-buffer-boundary", vxTokenizeBytes(mk(false)), vxTokenizeBytes(mk(true)), false)
+	vxCover("end")
+}
+
+// H06h: spelling variants are still mapped after the classifier has normalized or matched other text
+// containing them (Normalize interns raw words into the dictionary).
+func H06h() {
+	text := "the licence of this organisation is granted whilst the programme is in the centre"
+	canon := "the license of this organization is granted while the program is in the center"
+	c := NewClassifier(0.8)
+	c.AddContent("License", "A", "a.txt", []byte(canon))
+	ref := c.Match([]byte(text))
+	vxAssert("variant-matches-canonical", len(ref.Matches) == 1 && ref.Matches[0].Confidence == 1.0)
+	k := vxChoice(3)
+	switch k {
+	case 0:
+		c.Normalize([]byte("licence organisation whilst programme centre"))
+	case 1:
+		c.Match([]byte("licence organisation whilst programme centre"))
+	case 2:
+		c.Normalize([]byte(text))
+		c.Normalize([]byte(canon))
+	}
+	again := c.Match([]byte(text))
+	vxSameResults("spelling-after-history", ref, again)
 	vxCover("end")
 }
 
